@@ -1183,6 +1183,7 @@ hwloc__xml_import_distances(hwloc_topology_t topology,
   int gp_indexing = heterotypes;
   char *name = NULL;
   unsigned long kind = 0;
+  int gotkind = 0;
   unsigned nr_indexes, nr_u64values;
   uint64_t *indexes;
   uint64_t *u64values;
@@ -1214,6 +1215,7 @@ hwloc__xml_import_distances(hwloc_topology_t topology,
     }
     else if (!strcmp(attrname, "kind")) {
       kind = strtoul(attrvalue, NULL, 10);
+      gotkind = 1;
     }
     else if (!strcmp(attrname, "name")) {
       name = attrvalue;
@@ -1226,7 +1228,7 @@ hwloc__xml_import_distances(hwloc_topology_t topology,
   }
 
   /* abort if missing attribute */
-  if (!nbobjs || (!heterotypes && unique_type == HWLOC_OBJ_TYPE_NONE) || !indexing || !kind) {
+  if (!nbobjs || (!heterotypes && unique_type == HWLOC_OBJ_TYPE_NONE) || !indexing || !gotkind) {
     if (hwloc__xml_verbose())
       fprintf(stderr, "%s: %s missing some attributes\n",
 	      state->global->msgprefix, _TAG_NAME);
